@@ -205,7 +205,9 @@ func c30Reference(tok string, keys *c30Keys, now time.Time) c30Ref {
 	exp, okExp := c30Num(claims["exp"])
 	if _, present := claims["exp"]; !present || !okExp {
 		fail("exp-missing")
-	} else if e := ns(exp); e == nowNs-tol {
+	} else if e := ns(exp); exp != math.Floor(exp) && e-(nowNs-tol) > -1e9 && e-(nowNs-tol) < 1e9 {
+		ref.band = "fractional_claim_within_a_second_of_the_boundary" // the library truncates claims to whole seconds
+	} else if e == nowNs-tol {
 		ref.band = "exp_exactly_at_tolerance"
 	} else if e < nowNs-tol {
 		fail("exp")
@@ -213,7 +215,9 @@ func c30Reference(tok string, keys *c30Keys, now time.Time) c30Ref {
 	iat, okIat := c30Num(claims["iat"])
 	if _, present := claims["iat"]; !present || !okIat {
 		fail("iat-missing")
-	} else if a := ns(iat); a == nowNs+tol {
+	} else if a := ns(iat); iat != math.Floor(iat) && a-(nowNs+tol) > -1e9 && a-(nowNs+tol) < 1e9 {
+		ref.band = "fractional_claim_within_a_second_of_the_boundary"
+	} else if a == nowNs+tol {
 		ref.band = "iat_exactly_at_tolerance"
 	} else if a > nowNs+tol {
 		fail("iat")
@@ -532,7 +536,7 @@ func TestVerifC30(t *testing.T) {
 	r.SetRule("hand-assembled JWTs over 38 classes (valid; wrong / other configured / unknown / missing / non-string kid; HS256 and HS512 keyed with the public key; alg none / other / missing; " +
 		"payload or header changed after signing; signature bit-flipped, truncated, empty, padded; wrong segment count; garbage; exp / iat / nbf swept ±7 s around the 5 s tolerance on a clock with sub-second part; " +
 		"exp far / missing / quoted / not a number; iat missing; no registered claims; foreign / missing issuer; empty / missing user or vkuth_data; kind missing / other / non-string; bits with, without and with a foreign application prefix), " +
-		"each followed by view decisions on 19 names and 6 edit/rename decisions under random protected prefixes. Non-trivial = the token is not a plain valid one or grants at least one bit; distinct = distinct token text.")
+		"each followed by view decisions on 19 names and 6 edit/rename decisions under random protected prefixes. A third of the presentations re-present an already seen token string to the same verifier at another virtual time (made-for time, after expiry, before issue, around the tolerance; the clock also runs backwards); a fifth of the fresh tokens is first shown outside its window. Non-trivial = the token is not a plain valid one, grants at least one bit or is a re-presentation; distinct = distinct (token text, virtual time).")
 	r.Assume("a validly signed token without exp or without any registered claim panics inside Claims.Valid; counted as not accepted (DESIGN C30)")
 	n := r.N(48000, 2000000)
 	workers := 8
@@ -549,11 +553,34 @@ func TestVerifC30(t *testing.T) {
 		w.Count(fmt.Sprintf("key_loader.%d", w.Index%3), 1)
 		now := time.Unix(1790000000, 0)
 		helper.SetNow(func() time.Time { return now })
+		// History: acceptance must be a function of (token text, now) alone.  A third of the
+		// presentations re-present a token string this helper has already seen, at another
+		// virtual time (still valid, after expiry, before issue, around the tolerance; the
+		// clock also moves backwards), interleaved with fresh tokens.  A fifth of the fresh
+		// tokens is first shown outside its validity window and only later inside it.
+		var pool []*c30Held
 		for i := 0; i < n/workers; i++ {
-			now = time.Unix(1790000000+rnd.Int64N(1000000), rnd.Int64N(2)*rnd.Int64N(1000000000))
-			tok, granted := c30Gen(rnd, keys, now)
+			var e *c30Held
+			if len(pool) > 0 && rnd.IntN(3) == 0 {
+				e = pool[rnd.IntN(len(pool))]
+				now = e.pickTime(rnd, rnd.IntN(5))
+				w.Count("history.re_presented", 1)
+			} else {
+				now = time.Unix(1790000000+rnd.Int64N(1000000), rnd.Int64N(2)*rnd.Int64N(1000000000))
+				tok, granted := c30Gen(rnd, keys, now)
+				e = &c30Held{tok: tok, granted: granted, valid: now, lastReal: -1, lastRef: -1}
+				if rnd.IntN(5) == 0 {
+					now = e.pickTime(rnd, 1+rnd.IntN(2))
+					w.Count("history.first_shown_outside_window", 1)
+				}
+				if len(pool) < 48 {
+					pool = append(pool, e)
+				} else {
+					pool[rnd.IntN(len(pool))] = e
+				}
+			}
 			protected := [][]string{nil, {"prot_"}, {"prot_", "ns:prot_"}, {"prot_", "ns:", "statshouse_"}, {"foo"}, {""}}[rnd.IntN(6)]
-			c30Judge(r, w, rnd, keys, helper, now, tok, granted, protected, i)
+			c30Judge(r, w, rnd, keys, helper, now, e, protected, i)
 		}
 	})
 	c30Modes(r)
@@ -581,13 +608,65 @@ func c30Modes(r *verifkit.Run) {
 	}
 }
 
-func c30Judge(r *verifkit.Run, w *verifkit.Worker, rnd *rand.Rand, keys *c30Keys, helper *vkuth.JWTHelper, now time.Time, tok c30Token, granted []string, protected []string, i int) {
+// a token string the helper has been shown, with what happened the last time
+type c30Held struct {
+	tok      c30Token
+	granted  []string
+	valid    time.Time // the virtual time the token was generated for
+	shown    int
+	lastReal int8 // real decision at the previous presentation: -1 none, 0 refused, 1 accepted
+	lastRef  int8
+	// the verifier has rightly accepted / refused this very string at some earlier virtual time
+	everAccepted, everRefused bool
+}
+
+func c30ClaimSec(v any) (int64, bool) {
+	switch x := v.(type) {
+	case int64:
+		return x, true
+	case float64:
+		return int64(x), true
+	}
+	return 0, false
+}
+
+// mode 0: the time it was made for; 1: after expiry; 2: before issue; 3: around exp minus
+// tolerance; 4: around iat plus tolerance
+func (e *c30Held) pickTime(rnd *rand.Rand, mode int) time.Time {
+	exp, okE := c30ClaimSec(e.tok.claims["exp"])
+	iat, okI := c30ClaimSec(e.tok.claims["iat"])
+	if !okE || exp < 1e9 || exp > 3e9 {
+		exp = e.valid.Unix() + 100
+	}
+	if !okI || iat < 1e9 || iat > 3e9 {
+		iat = e.valid.Unix() - 100
+	}
+	nsec := rnd.Int64N(2) * rnd.Int64N(1000000000)
+	switch mode {
+	case 1:
+		return time.Unix(exp+6+rnd.Int64N(4000), nsec)
+	case 2:
+		return time.Unix(iat-6-rnd.Int64N(1000), nsec)
+	case 3:
+		return time.Unix(exp+5+rnd.Int64N(15)-7, nsec)
+	case 4:
+		return time.Unix(iat-5+rnd.Int64N(15)-7, nsec)
+	}
+	return e.valid
+}
+
+func c30Judge(r *verifkit.Run, w *verifkit.Worker, rnd *rand.Rand, keys *c30Keys, helper *vkuth.JWTHelper, now time.Time, e *c30Held, protected []string, i int) {
+	tok, granted := e.tok, e.granted
 	ref := c30Reference(tok.text, keys, now)
+	prevReal, prevRef := e.lastReal, e.lastRef
+	everAccepted, everRefused := e.everAccepted, e.everRefused
+	e.shown++
 	witness := func(extra map[string]any) map[string]any {
 		hb, _ := json.Marshal(tok.hdr)
 		cb, _ := json.Marshal(tok.claims)
 		m := map[string]any{"class": tok.class, "token": tok.text, "header": string(hb), "claims": string(cb), "now_unix": now.Unix(), "now_nsec": now.Nanosecond(),
-			"reference_accepts": ref.accept, "reference_reason": ref.reason, "protected_prefixes": protected}
+			"reference_accepts": ref.accept, "reference_reason": ref.reason, "protected_prefixes": protected,
+			"presentation_no": e.shown, "made_for_unix": e.valid.Unix(), "previous_presentation_accepted": prevReal, "previous_reference_accepts": prevRef}
 		for k, v := range extra {
 			m[k] = v
 		}
@@ -618,6 +697,20 @@ func c30Judge(r *verifkit.Run, w *verifkit.Worker, rnd *rand.Rand, keys *c30Keys
 		r.Sample(witness(map[string]any{"accepted": err == nil && panicked == "", "via_init": viaInit}))
 	}
 	accepted := err == nil && panicked == ""
+	if !(viaInit && endpoint == EndpointHealthcheck) { // there a refusal is masked by the fallback identity
+		e.lastReal, e.lastRef = 0, 0
+		if accepted {
+			e.lastReal = 1
+		}
+		e.everAccepted = e.everAccepted || accepted && ref.accept
+		e.everRefused = e.everRefused || !accepted && !ref.accept
+		if ref.accept {
+			e.lastRef = 1
+		}
+		if prevRef >= 0 && (prevRef == 1) != ref.accept && ref.band == "" {
+			w.Count("history.reference_decision_changed_for_same_token", 1)
+		}
+	}
 	if panicked != "" {
 		if ref.sigValid && (ref.reason == "exp-missing" || tok.class == "no-registered-claims") {
 			w.Count("panic.valid_signature_without_exp", 1) // not accepted
@@ -630,19 +723,25 @@ func c30Judge(r *verifkit.Run, w *verifkit.Worker, rnd *rand.Rand, keys *c30Keys
 		// the healthcheck endpoint falls back to a fixed identity that can view one metric;
 		// outside the statement: recorded, not judged
 		r.NotJudged("healthcheck_endpoint_fallback", 1)
-		w.Case(true, tok.text)
+		w.Case(true, tok.text+"@"+now.String())
 		return
 	}
 	if ref.band != "" {
 		r.NotJudged("band."+ref.band, 1)
-		w.Case(true, tok.text)
+		w.Case(true, tok.text+"@"+now.String())
 		return
 	}
-	w.Case(tok.class != "valid" || len(granted) > 0, tok.text)
+	w.Case(tok.class != "valid" || len(granted) > 0 || e.shown > 1, tok.text+"@"+now.String())
 	if accepted != ref.accept {
-		if accepted {
+		switch {
+		case accepted && everAccepted:
+			// the same string was rightly accepted at another virtual time: the earlier decision is replayed
+			r.Violation("C30/history/earlier-acceptance-replayed/"+ref.reason, "a token accepted at one virtual time stays accepted at a time the statement rejects it ("+ref.reason+"): acceptance is not a function of (token, now)", witness(nil))
+		case !accepted && everRefused:
+			r.Violation("C30/history/earlier-refusal-replayed/"+tok.class, fmt.Sprintf("a token refused at one virtual time stays refused at a time the statement accepts it: %v", err), witness(nil))
+		case accepted:
 			r.Violation("C30/accepted-invalid/"+ref.reason, "a token the statement rejects ("+ref.reason+") was accepted", witness(nil))
-		} else {
+		default:
 			r.Violation("C30/rejected-valid/"+tok.class, fmt.Sprintf("a token the statement accepts was rejected: %v", err), witness(nil))
 		}
 		return
